@@ -3,13 +3,17 @@ package main
 // C16 — A failing resolver fails the whole query; clients only see sanitised errors.
 
 import (
+	"context"
 	"encoding/json"
+	"errors"
 	"fmt"
 	"os"
 	"regexp"
 	"strings"
 
+	"github.com/samsarahq/thunder/batch"
 	"github.com/samsarahq/thunder/graphql"
+	"github.com/samsarahq/thunder/graphql/schemabuilder"
 )
 
 func init() { register("C16", runC16) }
@@ -209,6 +213,7 @@ func runC16(c *Ctx) error {
 		}
 		return nil
 	}
+	c16Directed(c)
 	// the websocket part: error envelopes of real connections
 	for i := 0; i < c.N(60, 1500) && !c.Rep.ShouldStop(); i++ {
 		c16WS(c, i)
@@ -234,7 +239,7 @@ func c16WS(c *Ctx, i int) {
 		id := 1 + r.Intn(3)
 		switch r.Intn(7) {
 		case 0, 1:
-			acts = append(acts, cnAction{Op: "fail", Arg: []int64{1, 2, 3, 4, 6}[r.Intn(5)]})
+			acts = append(acts, cnAction{Op: "fail", Arg: []int64{1, 2, 3, 4, 5, 6}[r.Intn(6)]})
 		case 2, 3:
 			acts = append(acts, cnAction{Op: "subscribe", ID: id, Query: 4}) // the query with the flaky field
 		case 4:
@@ -294,3 +299,95 @@ func c16WS(c *Ctx, i int) {
 
 // cleanRoot: nothing to clean at present (kept for symmetry with other generators)
 func (g *xGen) cleanRoot(f map[string]*xVal) map[string]*xVal { return f }
+
+// ---- directed cases (findings C16-2, C16-3) ---------------------------------------------------------------------
+
+type c16Stamp struct{ Bad bool }
+
+func (s c16Stamp) MarshalText() ([]byte, error) {
+	if s.Bad {
+		return nil, errors.New("E77")
+	}
+	return []byte("ok"), nil
+}
+
+type c16Item struct {
+	Idx   int64
+	Stamp c16Stamp
+}
+
+type C16UA struct{ N int64 }
+type C16UB struct{ N int64 }
+type c16U struct {
+	schemabuilder.Union
+	*C16UA
+	*C16UB
+}
+type c16H struct {
+	Idx int64
+	U   *c16U
+}
+
+func c16DirectedSchema() *graphql.Schema {
+	sb := schemabuilder.NewSchema()
+	q := sb.Query()
+	q.FieldFunc("fine", func() string { return "x" })
+	q.FieldFunc("boom", func() (string, error) { panic(nil) })
+	q.FieldFunc("items", func() []c16Item {
+		return []c16Item{{Idx: 0}, {Idx: 1}, {Idx: 2, Stamp: c16Stamp{Bad: true}}, {Idx: 3}}
+	})
+	q.FieldFunc("hs", func() []c16H {
+		return []c16H{{Idx: 0, U: &c16U{C16UA: &C16UA{1}}}, {Idx: 1, U: &c16U{C16UA: &C16UA{1}, C16UB: &C16UB{2}}}, {Idx: 2, U: &c16U{C16UB: &C16UB{3}}}}
+	})
+	it := sb.Object("c16Item", c16Item{})
+	it.FieldFunc("exp", func(o c16Item) (string, error) { panic(nil) }, schemabuilder.Expensive)
+	it.BatchFieldFunc("bat", func(m map[batch.Index]c16Item) (map[batch.Index]string, error) { panic(nil) })
+	sb.Object("C16UA", C16UA{})
+	sb.Object("C16UB", C16UB{})
+	sb.Object("c16H", c16H{})
+	sb.Mutation()
+	return sb.MustBuild()
+}
+
+// c16Directed: a resolver that panics with nil fails the query like any other panic; an error raised while a value is
+// written out (a text marshaler, a union with two members set) carries the path of that value.
+func c16Directed(c *Ctx) {
+	rep := c.Rep
+	schema := c16DirectedSchema()
+	cases := []struct {
+		query string
+		path  string // "" = any
+		text  string
+	}{
+		{"{ fine boom }", "boom", "panic"},
+		{"{ fine items { idx exp } }", "", "panic"},
+		{"{ fine items { idx bat } }", "", "panic"},
+		{"{ fine items { idx stamp } }", "items.2.stamp", "E77"},
+		{"{ fine xs: items { s: stamp } }", "xs.2.s", "E77"},
+		{"{ hs { idx u { ... on C16UA { n } ... on C16UB { n } } } }", "hs.1.u", "union type field should only return one value"},
+	}
+	for _, tc := range cases {
+		for name, sched := range xSchedulers(c.Rng) {
+			cs := map[string]interface{}{"directed": tc.query, "scheduler": name}
+			var out interface{}
+			var err error
+			if p := safely(func() { out, err = gqlRunSched(context.Background(), schema, tc.query, nil, sched) }); p != nil {
+				rep.Fail("impl_ne_spec", nil, cs, map[string]interface{}{"what": "a panic escaped the executor", "panic": firstN(fmt.Sprint(p), 200)})
+				continue
+			}
+			switch {
+			case err == nil:
+				rep.Fail("impl_ne_spec", nil, cs, map[string]interface{}{"what": "a needed resolver fails, but execution returned data (partial data / swallowed error)", "data": out})
+			case out != nil:
+				rep.Fail("impl_ne_spec", nil, cs, map[string]interface{}{"what": "execution returned both data and an error", "data": out})
+			case !strings.Contains(err.Error(), tc.text):
+				rep.Fail("impl_ne_spec", nil, cs, map[string]interface{}{"what": "the error is not the one raised by the failing field", "error": firstN(err.Error(), 200)})
+			case tc.path != "" && !strings.HasPrefix(err.Error(), tc.path+": "):
+				rep.Fail("impl_ne_spec", nil, cs, map[string]interface{}{"what": "the error does not carry the response path of the value that failed", "want_path": tc.path, "error": firstN(err.Error(), 200)})
+			default:
+				rep.Count("directed")
+				rep.Eval("directed|"+tc.query+"|"+name, true, cs)
+			}
+		}
+	}
+}
